@@ -58,12 +58,23 @@ func (c *CtlBad2) Edit(ctx *rux.Context) error    { return nil }
 func (c *CtlBad2) Create(ctx *rux.Context)        { c16Hit(1) }
 func (c *CtlBad2) Delete(ctx *rux.Context, x int) {}
 
+// a controller with more exported func(*Context) methods than the seven actions: only the actions become routes
+type CtlExtra struct{}
+
+func (c *CtlExtra) Index(ctx *rux.Context)   { c16Hit(0) }
+func (c *CtlExtra) Show(ctx *rux.Context)    { c16Hit(3) }
+func (c *CtlExtra) Search(ctx *rux.Context)  { c16Hit(100) }
+func (c *CtlExtra) Export(ctx *rux.Context)  { c16Hit(101) }
+func (c *CtlExtra) Options(ctx *rux.Context) { c16Hit(102) }
+func (c *CtlExtra) AddRoutes(r *rux.Router)  { r.GET("/leak", func(*rux.Context) { c16Hit(103) }) }
+
 var c16Bad = map[string]struct {
 	ctl  any
 	mask int
 }{
-	"ctlbad1": {&CtlBad1{}, 1<<0 | 1<<5},
-	"ctlbad2": {&CtlBad2{}, 1<<3 | 1<<1},
+	"ctlbad1":  {&CtlBad1{}, 1<<0 | 1<<5},
+	"ctlbad2":  {&CtlBad2{}, 1<<3 | 1<<1},
+	"ctlextra": {&CtlExtra{}, 1<<0 | 1<<3},
 }
 
 func c16Gen(r *Rng, tier string, i int) Sx {
@@ -89,7 +100,7 @@ func c16Gen(r *Rng, tier string, i int) Sx {
 	}
 	if kind == "ptr" && r.Chance(1, 12) {
 		kind = "badsig"
-		res = r.Pick([]string{"ctlbad1", "ctlbad2"})
+		res = r.Pick([]string{"ctlbad1", "ctlbad2", "ctlextra"})
 		mask = c16Bad[res].mask
 		uses = false
 	}
@@ -105,7 +116,7 @@ func c16Gen(r *Rng, tier string, i int) Sx {
 	if ng > 0 {
 		g = "/g" + g
 	}
-	paths := []string{g, g + "/", g + "/create", g + "/7", g + "/7/edit", g + "/create/edit", g + "/7/x", g + "/x/y/z", "/", g + "x",
+	paths := []string{g, g + "/", g + "/create", g + "/7", g + "/7/edit", g + "/create/edit", g + "/7/x", g + "/x/y/z", "/", g + "x", g + "/search", g + "/leak", "/leak",
 		// (with StrictLastSlash the routes of the non-index actions end in a slash: /res/create/, /res/{id}/, /res/{id}/edit/)
 		g + "/create/", g + "/7/", g + "/7/edit/"}
 	// the same controller registered a second time under another base path (its route names are then taken over)
